@@ -84,10 +84,10 @@ Proof.
 Qed.
 
 (* (A) every operation the range analysis interprets maps words to words *)
-Theorem word_op_closed : forall op w, word_op op = Some w ->
+Theorem word_op_closed : forall op w, RangeOp.word_op op = Some w ->
   forall a b, 0 <= a < W -> 0 <= b < W -> 0 <= w a b < W.
 Proof.
-  intros op w Hw. unfold word_op in Hw.
+  intros op w Hw. unfold RangeOp.word_op in Hw.
   repeat match type of Hw with
   | (if String.eqb op ?s then _ else _) = _ =>
       destruct (String.eqb op s); [ injection Hw as <- | ]
@@ -116,6 +116,11 @@ Proof.
   - exact (not_closed a Ha).
 Qed.
 
+(* the same table as restated in RangeFix.v (definitions only there) *)
+Lemma word_op_closed_fix : forall op w, RangeFix.word_op op = Some w ->
+  forall a b, 0 <= a < W -> 0 <= b < W -> 0 <= w a b < W.
+Proof. intros op w H. apply (word_op_closed op w). exact H. Qed.
+
 (* ------------------------------------------------------------------ consequences for RangeFix.step_conc *)
 Lemma oval_word lv c o : lv_ok lv -> cenv_ok c -> 0 <= oval lv c o < W.
 Proof. intros Hl Hc. destruct o; cbn [oval]; [apply modW_word | apply Hc | apply Hl]. Qed.
@@ -128,8 +133,8 @@ Proof.
   destruct (i_outs ins) as [|o [|? ?]]; try discriminate.
   destruct (String.eqb (i_op ins) "assign").
   - destruct (i_args ins) as [|a [|? ?]]; try discriminate. intros H. injection H as <-. apply oval_word; assumption.
-  - destruct (word_op (i_op ins)) as [w|] eqn:Ew; [|discriminate].
-    pose proof (word_op_closed _ _ Ew) as Cl.
+  - destruct (RangeFix.word_op (i_op ins)) as [w|] eqn:Ew; [|discriminate].
+    pose proof (word_op_closed_fix _ _ Ew) as Cl.
     destruct (is_unary (i_op ins)).
     + destruct (i_args ins) as [|a [|? ?]]; try discriminate. intros H. injection H as <-.
       apply Cl; [apply oval_word; assumption | wl].
@@ -145,16 +150,17 @@ Proof.
   - intros H. exists x. split; [exact H | apply N.eqb_refl].
 Qed.
 
-(* the semantics never blocks: every instruction can be executed from every word state, and the successor is a
-   word state; so the side condition of step_conc is implied by (never contradicts) the determined value *)
-Theorem step_conc_total lv ins c : lv_ok lv -> cenv_ok c ->
+(* the semantics never blocks except at a failing assert: every other instruction can be executed from every word
+   state, and the successor is a word state; so the side condition "outputs are words" of step_conc is implied by
+   (never contradicts) the value a determined instruction computes *)
+Theorem step_conc_total lv ins c : lv_ok lv -> cenv_ok c -> assert_passes lv ins c ->
   exists c', step_conc lv ins c c' /\ cenv_ok c'.
 Proof.
-  intros Hl Hc.
+  intros Hl Hc AP.
   set (v := match sem_fun lv ins with Some g => g c | None => 0 end).
   assert (Hv : 0 <= v < W).
   { unfold v. destruct (sem_fun lv ins) as [g|] eqn:E; [exact (sem_fun_word lv ins g c Hl Hc E) | wl]. }
-  exists (fun x => if in_outs x (i_outs ins) then v else c x). split; [split; [|split]|].
+  exists (fun x => if in_outs x (i_outs ins) then v else c x). split; [split; [|split; [|split; [|exact AP]]]|].
   - intros x Hx. destruct (in_outs x (i_outs ins)) eqn:E; [apply in_outs_In in E; contradiction | reflexivity].
   - intros x Hx. apply in_outs_In in Hx. rewrite Hx. exact Hv.
   - intros g o Hg Ho. rewrite Ho. cbn [in_outs existsb]. rewrite N.eqb_refl. cbn [orb]. unfold v. rewrite Hg. reflexivity.
@@ -164,7 +170,7 @@ Qed.
 (* every successor state of a word state is a word state *)
 Lemma step_conc_cenv_ok lv ins c c' : cenv_ok c -> step_conc lv ins c c' -> cenv_ok c'.
 Proof.
-  intros Hc (Hk & Hw & _) x. destruct (in_outs x (i_outs ins)) eqn:E.
+  intros Hc (Hk & Hw & _ & _) x. destruct (in_outs x (i_outs ins)) eqn:E.
   - apply Hw. apply in_outs_In. exact E.
   - rewrite Hk; [apply Hc|]. intros H. apply in_outs_In in H. congruence.
 Qed.
